@@ -19,7 +19,7 @@ RULE = ("real child processes `python -m cobald.daemon <config>` with generated 
         "of all three flavours, instrumented classes that append to an event file (constructed-with-running-loop, run "
         "started, heartbeat, cancelled); one SIGINT sent directly to the python pid at a random time after start; every "
         "kind of configuration error (syntax, unknown section, unknown tag, constructor error, missing pipeline, unknown "
-        "extension, missing file, empty / comment-only / null / {} / [] documents); a service failing at a random time "
+        "extension, missing file, empty / comment-only / null / {} / [] documents, a shipped !Tag element whose arguments only fail when it is bound to its target, a pipeline of tags that forgets its pool); Python configurations that define a dataclass with postponed annotations, pickle an object of a class they define, or look themselves up in sys.modules; a service failing at a random time "
         "with one of 15 failure kinds (Exception subclasses incl. the OSError family without errno, SystemExit, other "
         "BaseExceptions, a returned value); services and pools that are falsy objects (container-like, __len__ == 0); the child's events are replayed on the runtime "
         "LTS (same acceptor as C01..C12); non-trivial = every case; distinct = distinct configuration text + scenario")
